@@ -316,7 +316,17 @@ func (s *socket) onDrain() {
 func (s *socket) MaybeUpgrade(transport transports.Transport) {
 	socket_log.Debug(`might upgrade socket transport from "%s" to "%s"`, s.Transport().Name(), transport.Name())
 
-	s.upgrading.Store(true)
+	// claim the session in one step: of two candidates that passed the server's
+	// Upgrading()/Upgraded() test at the same time only one may be entertained
+	if !s.upgrading.CompareAndSwap(false, true) {
+		transport.Close()
+		return
+	}
+	if s.upgraded.Load() {
+		s.upgrading.Store(false)
+		transport.Close()
+		return
+	}
 
 	var check, cleanup func()
 	var onPacket, onError, onTransportClose, onClose events.Listener
@@ -339,10 +349,10 @@ func (s *socket) MaybeUpgrade(transport transports.Transport) {
 
 		} else if packet.UPGRADE == data.Type && probed.Load() && s.ReadyState() != "closed" {
 			socket_log.Debug("got upgrade packet - upgrading")
+			s.upgraded.Store(true)
 			cleanup()
 			s.Transport().Discard()
 
-			s.upgraded.Store(true)
 
 			s.clearTransport()
 			s.setTransport(transport)
